@@ -35,14 +35,16 @@ theorem setTensor_hooks {md md' : Mod} {n : Name} {t out : Tn} (h : setTensor md
     all_goals first
       | (injection h with h; injection h with h1 h2; subst h1; exact ⟨Nat.le_refl _, fun _ => rfl⟩)
       | cases h
-  · unfold setTensorNative setTensorWith at h
-    simp only at h
+  · unfold setTensorNative at h
     repeat' split at h
     all_goals first
       | (injection h with h; injection h with h1 h2; subst h1
          rw [place_hooks]
          refine ⟨Nat.le_add_right _ _, fun hl => ?_⟩
          simp [hl])
+      | (injection h with h; injection h with h1 h2; subst h1; exact ⟨Nat.le_refl _, fun _ => rfl⟩)
+      | (injection h with h; injection h with h1 h2; subst h1
+         exact ⟨by simp, fun hl => by simp_all⟩)
       | cases h
 
 theorem swap_hooks : ∀ (es : List (Name × PTree)) (h : Heap) (memo : Memo) (m : MId) (h1 : Heap)
